@@ -271,6 +271,65 @@ def list_raises(ctx, st, exc):
         ctx.oblige("raises", f"only-value-errors(got {exc.cls}@{exc.origin})" + tag, False)
 
 
+# ---------------------------------------------------------------------------- List: `key+` (append) and dotted sub-options of the last item
+def lapp_setup(ctx):
+    mode = ["append-one", "append-a-list", "nested-arg-on-last-item"][ctx.choose(3, "mode")]
+    prev_kind = ["None", "list-of-2", "scalar-accepted", "scalar-rejected"][ctx.choose(4, "previous-value")]
+    if mode == "nested-arg-on-last-item" and prev_kind.startswith("scalar"):
+        prev_kind = "list-of-2"
+    P = [z3.Int("prev[0]"), z3.Int("prev[1]")]
+    scalar = z3.Int("prev-scalar")
+    prev = {"None": None, "list-of-2": list(P), "scalar-accepted": scalar, "scalar-rejected": scalar}[prev_kind]
+    new_items = [z3.Int("new[0]"), z3.Int("new[1]")]
+    ctx.classes.add("NestedArg", ["tuple"])
+    nested = Rec("NestedArg", attrs={"key": "k", "val": "v"})
+    val = {"append-one": new_items[0], "append-a-list": list(new_items), "nested-arg-on-last-item": nested}[mode]
+    log = []
+
+    def accepts_of(c, v, sub):
+        if v is scalar:
+            return prev_kind == "scalar-accepted"
+        return True
+
+    calls = {"adapt_typehints": adapt_model(ctx, accepts_of, log), UNEXPECTED: raise_unexpected, "deepcopy": lambda c, a, k: dict(a[0]), "list": concrete_list}
+    consts = {"sequence_origin_types": (ClassRef("List"), ClassRef("list")), "NestedArg": ClassRef("NestedArg"), "Iterable": ClassRef("Iterable"), "mapping_origin_types": (ClassRef("dict"), ClassRef("Dict"))}
+    noop = (lambda c, a, k: None, lambda c, t, e: False)
+    env = {"val": val, "typehint_origin": ClassRef("list"), "subtypehints": (ClassRef("T0"),), "append": mode.startswith("append"), "enable_path": False, "prev_val": prev, "adapt_kwargs": {"prev_val": prev}}
+    return Setup(env=env, calls=calls, consts=consts, cms={"change_to_path_dir": noop}, data=dict(mode=mode, prev_kind=prev_kind, P=P, scalar=scalar, new_items=new_items, nested=nested, log=log, prev=prev))
+
+
+def lapp_post(ctx, st, result):
+    d = st.data
+    out = d["env"].lookup("val")
+    tag = f"[{d['mode']},prev:{d['prev_kind']}]"
+    log = [e for e in d["log"] if e[4].get("list_item") is True]  # the per-item adaptations (the conversion of a scalar previous value is a separate call)
+    if d["mode"] == "nested-arg-on-last-item":
+        base = d["P"][:-1] if d["prev_kind"] == "list-of-2" else []
+        items = base + [d["nested"]]
+        prevs = d["P"] if d["prev_kind"] == "list-of-2" else None
+    else:
+        base = {"None": [], "list-of-2": list(d["P"]), "scalar-accepted": ["<adapted scalar>"], "scalar-rejected": []}[d["prev_kind"]]
+        new = [d["new_items"][0]] if d["mode"] == "append-one" else list(d["new_items"])
+        items = base + new
+        prevs = base + [None] * len(new)
+    ok_len = isinstance(out, list) and len(out) == len(items) == len(log)
+    ctx.oblige("post", "the-result-is-the-previous-items(in order)-followed-by-the-new-ones;a-dotted-sub-option-addresses-the-last-item" + tag, ok_len)
+    if not ok_len:
+        return
+    same_item = all((e[0] is it) or (it == "<adapted scalar>" and is_z3(e[0]) and str(e[0]).startswith("adapted[")) for e, it in zip(log, items))
+    ctx.oblige("post", "every-item-is-adapted-by-the-element-type,once,in-order,and-the-result-holds-the-adapted-items" + tag, same_item and all(x is e[3] for x, e in zip(out, log)))
+    if prevs is not None:
+        pv = [e[4].get("prev_val") for e in log]
+        ctx.oblige("post", "item-n-is-adapted-against-the-previous-item-n(new items against nothing)" + tag,
+                   all((p is q) or (q == "<adapted scalar>" and is_z3(p)) or (q is None and p is None) for p, q in zip(pv, prevs)))
+    if d["prev_kind"] == "scalar-rejected" and d["mode"].startswith("append"):
+        ctx.oblige("post", "a-previous-value-that-is-no-valid-item-is-dropped,not-kept-as-a-bad-item" + tag, len(out) == len(items))
+
+
+def lapp_raises(ctx, st, exc):
+    ctx.oblige("raises", f"no-exception-in-these-scenarios[{st.data['mode']},prev:{st.data['prev_kind']}](got {exc.cls}@{exc.origin})", False)
+
+
 # ============================================================================ Dict
 def dict_setup(ctx):
     container = ["dict", "list", "str", "None"][ctx.choose(4, "val-container")]
@@ -504,6 +563,8 @@ def arms_units(prop):
                   trusted=["json_or_yaml_load(text) returns some int/float/bool/str/None/list or raises a loader exception (external loader)", "float(int) rounds to nearest"]))
     u.append(Unit(prop, TARGET.format("typehint_origin in tuple_set_origin_types"), ts_setup, ts_post, ts_raises, label="Tuple/Set", expect_cover=("return", "raise:ValueError"), max_paths=60000,
                   trusted=["recursive adapt_typehints(v, subtype): returns a value iff the subtype accepts v (induction hypothesis)", "is_ellipsis_tuple(hint) tells Tuple[T, ...]"]))
+    u.append(Unit(prop, TARGET.format("typehint_origin in sequence_origin_types"), lapp_setup, lapp_post, lapp_raises, label="List:append-and-sub-options", max_paths=5000,
+                  trusted=["recursive adapt_typehints by contract (induction hypothesis)"]))
     u.append(Unit(prop, TARGET.format("typehint_origin in sequence_origin_types"), list_setup, list_post, list_raises, label="List", expect_cover=("return", "raise:ValueError"), max_paths=60000,
                   trusted=["recursive adapt_typehints by contract", "scenario: append=False, enable_path=False (the `+` append and list-file paths are outside this unit)"]))
     u.append(Unit(prop, TARGET.format("typehint_origin in mapping_origin_types"), dict_setup, dict_post, dict_raises, label="Dict", expect_cover=("return", "raise:ValueError"), max_paths=60000,
@@ -523,7 +584,9 @@ def arms_units(prop):
 def dc_setup(ctx):
     prev_kind = ["none", "namespace", "dict"][ctx.choose(3, "prev_val")]
     mode = ["parse", "serialize", "instantiate"][ctx.choose(3, "mode")]
-    val_kind = ["dict", "namespace", "nested-arg", "other"][ctx.choose(4, "val-kind")] if mode == "parse" else "namespace"
+    val_kind = ["dict", "namespace", "nested-arg", "other", "spec-of-this-very-class", "spec-of-another-class"][ctx.choose(6, "val-kind")] if mode == "parse" else "namespace"
+    sub_defaults_on = ctx.choose(2, "sub_defaults") == 1 if mode == "parse" else False
+    list_item = ctx.choose(2, "list_item") == 1 if mode == "parse" and val_kind in ("dict", "namespace") else False
     prev = {"none": None, "namespace": Rec("Namespace", attrs={"tag": "previous value"}), "dict": {"a": 5}}[prev_kind]
     given_kwargs = {"fail_untyped": True}
     snapshot = dict(given_kwargs)
@@ -542,12 +605,16 @@ def dc_setup(ctx):
     loaded = Rec("dict loaded from the dumped text")
     caller_dump_kwargs = {"skip_none": z3.Bool("dump.skip_none"), "skip_validation": z3.Bool("dump.skip_validation"), "skip_link_targets": z3.Bool("dump.skip_link_targets")}
     ctx.classes.add("NestedArg", ["tuple"])
-    val = {"dict": {"a": 1}, "namespace": Rec("Namespace", attrs={"tag": "value"}, methods={"get": lambda c, s_, a, k: None}), "nested-arg": Rec("NestedArg", attrs={"key": "a", "val": "5"}), "other": 7}[val_kind]
-    calls = {"ActionTypeHint.get_class_parser": get_class_parser, UNEXPECTED: raise_unexpected, "is_subclass_spec": lambda c, a, k: False, "sub_defaults.get": lambda c, a, k: False,
+    spec_init = Rec("Namespace", attrs={"tag": "init_args of the spec"})
+    val = {"dict": {"a": 1}, "namespace": Rec("Namespace", attrs={"tag": "value"}, methods={"get": lambda c, s_, a, k: None}), "nested-arg": Rec("NestedArg", attrs={"key": "a", "val": "5"}), "other": 7,
+           "spec-of-this-very-class": Rec("Namespace", attrs={"tag": "spec", "spec": True}, methods={"get": lambda c, s_, a, k: {"class_path": "pkg.DC", "init_args": spec_init}.get(a[0])}),
+           "spec-of-another-class": Rec("Namespace", attrs={"tag": "spec", "spec": True}, methods={"get": lambda c, s_, a, k: {"class_path": "pkg.Other", "init_args": spec_init}.get(a[0])})}[val_kind]
+    calls = {"ActionTypeHint.get_class_parser": get_class_parser, UNEXPECTED: raise_unexpected, "is_subclass_spec": lambda c, a, k: isinstance(a[0], Rec) and a[0].attrs.get("spec", False),
+             "get_import_path": lambda c, a, k: "pkg.DC", "sub_defaults.get": lambda c, a, k: sub_defaults_on,
              "load_value": lambda c, a, k: (c.event("load", a[0]), loaded)[1], "dump_kwargs.get": lambda c, a, k: dict(caller_dump_kwargs), "typehint": lambda c, a, k: Rec("dataclass instance", attrs=dict(k))}
     consts = {"Namespace": ClassRef("Namespace"), "NestedArg": ClassRef("NestedArg")}
-    env = {"val": val, "typehint": Rec("DataclassType"), "prev_val": prev, "sub_add_kwargs": given_kwargs, "instantiate_classes": mode == "instantiate", "serialize": mode == "serialize", "list_item": False}
-    return Setup(env=env, calls=calls, consts=consts, data=dict(prev_kind=prev_kind, prev=prev, mode=mode, val_kind=val_kind, given=given_kwargs, snapshot=snapshot, seen=seen_kwargs, parsed=parsed, val=val, dumped_text=dumped_text, loaded=loaded, caller_dump_kwargs=caller_dump_kwargs))
+    env = {"val": val, "typehint": Rec("DataclassType"), "prev_val": prev, "sub_add_kwargs": given_kwargs, "instantiate_classes": mode == "instantiate", "serialize": mode == "serialize", "list_item": list_item}
+    return Setup(env=env, calls=calls, consts=consts, data=dict(prev_kind=prev_kind, prev=prev, mode=mode, val_kind=val_kind, given=given_kwargs, snapshot=snapshot, seen=seen_kwargs, parsed=parsed, val=val, spec_init=spec_init, sub_defaults_on=sub_defaults_on, list_item=list_item, dumped_text=dumped_text, loaded=loaded, caller_dump_kwargs=caller_dump_kwargs))
 
 
 def dc_post(ctx, st, result):
@@ -561,9 +628,16 @@ def dc_post(ctx, st, result):
         ctx.oblige("post", "without-a-previous-value-the-class-parser-gets-no-default" + tag, len(d["seen"]) == 1 and "default" not in d["seen"][0])
     if d["mode"] == "parse":
         out = d["env"].lookup("val")
-        ctx.oblige("post", "accept-iff:only-mappings-and-dotted-sub-options;validated-by-the-parser-of-that-very-class" + tag, d["val_kind"] in ("dict", "namespace", "nested-arg") and out is d["parsed"])
+        ctx.oblige("post", "accept-iff:only-mappings-and-dotted-sub-options;validated-by-the-parser-of-that-very-class" + tag, d["val_kind"] in ("dict", "namespace", "nested-arg", "spec-of-this-very-class", "spec-of-another-class") and out is d["parsed"])
         ev = [e for e in ctx.events if e[0] in ("parse_object", "parse_args")]
         ctx.oblige("post", "the-validating-entry-point-of-the-class-parser-is-used-exactly-once" + tag, len(ev) == 1)
+        if len(ev) == 1 and ev[0][0] == "parse_object":
+            want_obj = d["spec_init"] if d["val_kind"] == "spec-of-this-very-class" else d["val"]
+            ctx.oblige("post", "what-is-validated-is-the-mapping-given(for a class_path spec naming this very class: its init_args;a spec of another class is not unwrapped,so its keys are refused by the class parser)" + tag, ev[0][1] is want_obj)
+            ctx.oblige("post", "the-class's-defaults-are-filled-in-exactly-when-sub-defaults-are-on-or-the-value-is-a-list-item" + tag, ev[0][2].get("defaults") is (d["sub_defaults_on"] or d["list_item"]) or ev[0][2].get("defaults") == (d["sub_defaults_on"] or d["list_item"]))
+        if len(ev) == 1 and ev[0][0] == "parse_args":
+            want_ns = d["prev"] if d["prev_kind"] == "namespace" else None
+            ctx.oblige("post", "a-dotted-sub-option-is-parsed-as---key=value-on-top-of-the-previous-value(when that is a namespace)" + tag, ev[0][1] == ["--a=5"] and ev[0][2].get("namespace") is want_ns)
     if d["mode"] == "serialize":
         dumps = [e for e in ctx.events if e[0] == "nested-dump"]
         ok = len(dumps) == 1 and dumps[0][1] is d["val"] and set(dumps[0][2]) == set(d["caller_dump_kwargs"]) and all(dumps[0][2][k] is v for k, v in d["caller_dump_kwargs"].items())
